@@ -192,6 +192,10 @@ func (g *gen) nameAt(b *ssa.BasicBlock, st *state, phiVal func(*ssa.Phi) string)
 				}
 				if a, ok := best.X.(*ssa.Alloc); ok && a.Heap {
 					et := deref(a.Type())
+					if p := namedPkg(et); p != "" && !g.P.isYq(p) {
+						// a local of an external struct type (strings.Builder, bytes.Buffer): the name denotes the object
+						return g.goVal(g.vals[a], a.Type()), true
+					}
 					if _, isS := et.Underlying().(*types.Struct); isS {
 						return g.goVal(g.loadStruct(st, g.vals[a], et), et), true
 					}
